@@ -270,6 +270,7 @@ def _det_small(depth):
 HEART = 0.25      # heartbeat period (keeps a broken waker from hanging the run)
 SAFETY = 2.0      # unrelated timer during the idle probe
 IDLE_TRIES = 3
+BAD_ROUNDS = 3     # repetitions of the bad-descriptor fault (which readers a reactor scans first is not controllable)
 WATCHDOG = 600.0  # hard stop: harness error, never a violation
 
 
@@ -323,10 +324,94 @@ def run_real(ctx, case):
     executed = []                    # (issuer, seq, thread ident); list.append is atomic
     issued = [0] * len(plan)         # per producer: number of calls whose callFromThread returned
     nested_issued = [0]
-    S = dict(beats=0, stop=False, hb=None, safety=None, safety_fired=-1,
-             idle_results=[], problems=[], harness=[], held=None)
+    n_io = int(case.get("io", 0))            # extra pipe readers registered with the reactor
+    n_bad = int(case.get("badfd", 0))         # how many of them go bad behind the reactor's back
+    restart = bool(case.get("restart", False))  # first run ended by crash() from an I/O callback, then run() again
+    S = dict(beats=0, io_beats=0, stop=False, hb=None, safety=None, safety_fired=-1,
+             idle_results=[], problems=[], harness=[], held=None, finished=False,
+             force_crash=False, run_done=False, crash_requested=False, runs=1, readers=[],
+             lost_readers=0, bad_before_waker=0)
     ev = dict(started=threading.Event(), armed=threading.Event(), probed=threading.Event(),
-              shutting=threading.Event())
+              shutting=threading.Event(), pong=threading.Event())
+
+    def finish():
+        # reactor thread: end the run (politely first, by crash() if asked again)
+        if S["force_crash"] and r.running:
+            r.crash()
+            return
+        if S["finished"]:
+            return
+        S["finished"] = True
+        if S["held"] is not None:
+            S["held"].callback(None)      # lets the held shutdown finish
+        else:
+            r.stop()
+
+    class PipeReader:
+        """A reader on a pipe.  Reader 0 is the harness's own I/O channel: 'p' =
+        ping (an iteration clock that does not depend on timed calls), 'c' = call
+        reactor.crash() from this I/O callback."""
+
+        def __init__(self, idx):
+            self.idx = idx
+            self.rfd, self.wfd = os.pipe()
+            os.set_blocking(self.rfd, False)
+            self.bad = False
+
+        def fileno(self):
+            return -1 if self.bad else self.rfd
+
+        def logPrefix(self):
+            return f"c13-reader-{self.idx}"
+
+        def doRead(self):
+            try:
+                data = os.read(self.rfd, 4096)
+            except (BlockingIOError, OSError):
+                return
+            for b in data:
+                if b == ord("c"):
+                    S["crash_requested"] = True
+                    r.crash()
+                else:
+                    S["io_beats"] += 1
+            ev["pong"].set()
+            if S["stop"]:
+                finish()
+
+        def connectionLost(self, reason):
+            S["lost_readers"] += 1
+            self.close()
+
+        def go_bad(self):
+            # the descriptor disappears behind the reactor's back (as a socket
+            # closed elsewhere does): fileno() is -1 from now on
+            self.close()
+
+        def close(self):
+            if not self.bad:
+                self.bad = True
+                for fd in (self.rfd, self.wfd):
+                    try:
+                        os.close(fd)
+                    except OSError:
+                        pass
+
+    def ping(timeout=5.0):
+        """One I/O round trip through reader 0; True if the reactor answered."""
+        rd = S["readers"][0] if S["readers"] else None
+        if rd is None or rd.bad:
+            return False
+        ev["pong"].clear()
+        before = S["io_beats"]
+        try:
+            os.write(rd.wfd, b"p")
+        except OSError:
+            return False
+        t0 = time.monotonic()
+        while S["io_beats"] == before and time.monotonic() - t0 < timeout:
+            ev["pong"].wait(0.05)
+        return S["io_beats"] != before
 
     def fn(issuer, seq, extra):
         flags = extra
@@ -342,10 +427,7 @@ def run_real(ctx, case):
         S["beats"] += 1
         if S["stop"]:
             S["hb"] = None
-            if S["held"] is not None:
-                S["held"].callback(None)      # lets the held shutdown finish
-            else:
-                r.stop()
+            finish()
             return
         S["hb"] = r.callLater(HEART, beat)
 
@@ -365,34 +447,73 @@ def run_real(ctx, case):
         except BaseException as e:          # twisted raised in a producer thread
             S["problems"].append(("producer-raised", f"thread {i}: {type(e).__name__}: {e}"))
 
+    def clocks():
+        return S["beats"], S["io_beats"]
+
+    def elapsed(start):
+        """Reactor iterations proven since `start`: heartbeat timer firings or
+        answered I/O pings, whichever clock advanced more."""
+        return max(S["beats"] - start[0], S["io_beats"] - start[1])
+
     def wait_beats(n):
-        """Block until the reactor has iterated n more heartbeats (logical clock)."""
-        start = S["beats"]
+        """Block until the reactor has iterated n more times (logical clocks)."""
+        start = clocks()
         t0 = time.monotonic()
-        while S["beats"] - start < n:
+        i = 0
+        while elapsed(start) < n:
             time.sleep(0.02)
+            i += 1
+            if i % 25 == 0:
+                ping(1.0)
             if time.monotonic() - t0 > WATCHDOG / 2:
-                S["harness"].append("heartbeat stopped beating")
+                S["harness"].append("reactor stopped iterating (no heartbeat, no I/O answer)")
                 return False
         return True
 
     def sentinel(tag):
-        """Issue a call and wait for it; lost if >=4 heartbeats pass after the issue."""
+        """Issue a call and wait for it; lost if the reactor provably iterated
+        >=4 more times (timer heartbeats or answered I/O pings) after the issue."""
         done = threading.Event()
         r.callFromThread(lambda: (executed.append(("S", tag, threading.get_ident())), done.set()))
-        start = S["beats"]
+        start = clocks()
         t0 = time.monotonic()
+        i = 0
         while not done.wait(0.02):
-            if S["beats"] - start >= 4:
+            i += 1
+            if i % 25 == 0:
+                ping(1.0)       # also keeps a reactor whose timers died iterating
+            if elapsed(start) >= 4:
                 if done.wait(0.05):
                     break
                 S["problems"].append(("real-call-lost",
-                                      f"sentinel {tag} issued, reactor iterated {S['beats'] - start} heartbeats, call never ran"))
+                                      f"sentinel {tag} issued, reactor iterated {elapsed(start)} more times "
+                                      f"(run {S['runs']}), call never ran"))
                 return False
             if time.monotonic() - t0 > WATCHDOG / 2:
-                S["harness"].append("sentinel wait: heartbeat stopped")
+                S["harness"].append("sentinel wait: reactor stopped iterating")
                 return False
         return True
+
+    def make_bad(rnd):
+        # reactor thread: n_bad freshly registered readers lose their descriptors
+        victims = []
+        for _ in range(n_bad):
+            rd = PipeReader(len(S["readers"]))
+            S["readers"].append(rd)
+            r.addReader(rd)
+            victims.append(rd)
+        # where do they stand in the reactor's own listing of its readers?
+        try:
+            listing = r.getReaders()
+            if r.waker in listing:
+                w = listing.index(r.waker)
+                if any(rd in listing and listing.index(rd) < w for rd in victims):
+                    S["bad_before_waker"] += 1
+        except Exception:
+            pass
+        for rd in victims:
+            rd.go_bad()
+        ev["armed"].set()
 
     # --- idle probe pieces (run in the reactor thread) -------------------
     def arm_idle(k):
@@ -452,6 +573,16 @@ def run_real(ctx, case):
     def coordinator():
         try:
             ev["started"].wait()
+            if restart:
+                # lifecycle: the first run is ended by crash() called from an
+                # I/O callback while a timed call is pending; everything else
+                # happens in the second run() of the same reactor
+                if sentinel("pre"):
+                    ev["started"].clear()
+                    os.write(S["readers"][0].wfd, b"c")
+                    if not ev["started"].wait(WATCHDOG / 4):
+                        S["harness"].append("reactor did not start a second time")
+                        return
             threads = [threading.Thread(target=producer, args=(i,), name=f"c13-prod-{i}", daemon=True)
                        for i in range(len(plan))]
             for t in threads:
@@ -466,6 +597,23 @@ def run_real(ctx, case):
             if ok and do_idle and idle_when == "running":
                 S["idle_running"] = idle_round(0)
                 wait_beats(1)
+            if ok and n_bad and not S["harness"]:
+                # fault: descriptors of registered readers go bad; the reactor
+                # has to get rid of them and keep serving callFromThread
+                good = True
+                for rnd in range(BAD_ROUNDS):
+                    ev["armed"].clear()
+                    r.callFromThread(make_bad, rnd)
+                    if not ev["armed"].wait(WATCHDOG / 4):
+                        S["harness"].append("bad-descriptor fault could not be injected")
+                        good = False
+                        break
+                    if not (sentinel(3 + rnd) and wait_beats(2)):
+                        good = False
+                        break
+                if good and do_idle and idle_when == "after-bad-fd":
+                    S["idle_badfd"] = idle_round(200)
+                    wait_beats(1)
             if ok and do_shutdown and not S["harness"]:
                 # the reactor is still running while its shutdown is held open:
                 # the same guarantees apply
@@ -487,9 +635,24 @@ def run_real(ctx, case):
                 r.callFromThread(lambda: None)
             except BaseException:
                 pass
+            # make sure the run ends even if timed calls or wake-ups are broken:
+            # I/O pings reach finish(); after a grace period it crash()es
+            n = 0
+            while not S["run_done"] and n < 400:
+                n += 1
+                if n == 30:
+                    S["force_crash"] = True
+                ping(0.2)
+                time.sleep(0.05)
 
     def on_start():
-        S["hb"] = r.callLater(HEART, beat)
+        if not S["readers"]:
+            for i in range(1 + n_io):
+                rd = PipeReader(i)
+                S["readers"].append(rd)
+                r.addReader(rd)
+        if S["hb"] is None or not S["hb"].active():
+            S["hb"] = r.callLater(HEART, beat)
         ev["started"].set()
 
     def watchdog():
@@ -507,10 +670,20 @@ def run_real(ctx, case):
         r.callWhenRunning(on_start)
         co.start()
         r.run(installSignalHandlers=False)
+        if restart and S["crash_requested"] and not S["stop"]:
+            S["runs"] = 2
+            # (sensitivity only) let the due time of the pending timed call pass
+            time.sleep(HEART + 0.1)
+            r.callWhenRunning(on_start)
+            r.run(installSignalHandlers=False)
+        S["run_done"] = True
         co.join(WATCHDOG)
     finally:
+        S["run_done"] = True
         sys.setswitchinterval(old_si)
         wd.cancel()
+        for rd in S["readers"]:
+            rd.close()
         _dispose(kind, r)
     if co.is_alive():
         raise HarnessError("C13 coordinator thread did not end")
@@ -550,7 +723,9 @@ def run_real(ctx, case):
         ctx.violation("real-per-thread-order", case, f"{kind}: calls issued by the reactor thread ran out of order")
     for key, sig, what in (("idle_running", "real-idle-call-waited-for-unrelated-timer", "the reactor idled"),
                            ("idle_shutdown", "real-idle-call-during-held-shutdown-waited-for-unrelated-timer",
-                            "the reactor idled after stop() with its shutdown held open by a before-shutdown trigger")):
+                            "the reactor idled after stop() with its shutdown held open by a before-shutdown trigger"),
+                           ("idle_badfd", "real-idle-call-after-bad-descriptor-waited-for-unrelated-timer",
+                            "the reactor idled after descriptors of other registered readers had gone bad")):
         res = S.get(key)
         if res is None:
             continue
@@ -563,6 +738,13 @@ def run_real(ctx, case):
     order = [who for who, _, _ in executed if isinstance(who, int)]
     switches = sum(1 for a, b in zip(order, order[1:]) if a != b)
     ctx.count(f"real[{kind}] runs")
+    if S["runs"] == 2:
+        ctx.count(f"real[{kind}] workload ran in the second run() after crash() from an I/O callback")
+    if n_bad:
+        ctx.count(f"real[{kind}] runs with descriptors of registered readers going bad")
+        ctx.count("real: readers disconnected by the reactor after going bad", S["lost_readers"])
+        ctx.count(f"real[{kind}] fault rounds in which a bad reader preceded the waker in getReaders()", S["bad_before_waker"])
+    ctx.count("real: extra readers registered", n_io)
     ctx.count(f"real[{kind}] calls", len(executed))
     ctx.count(f"real[{kind}] issuer switches in executed order", switches)
     ctx.count("real: calls issued from the reactor thread", nested_issued[0])
@@ -606,8 +788,10 @@ def _workload(seed, kind, idx, nthreads, ncalls):
             shape = POS if b2 & 1 else (KW, KW, MIXED, NOARGS)[(b2 >> 1) & 3]
             calls.append([pause, flags, shape])
         out.append(calls)
+    j = idx % 10
     return dict(layer="real", reactor=kind, threads=out, idle=True, shutdown=True,
-                idle_when="running" if idx % 10 == 0 else "shutdown")
+                io=6, badfd=12 if j == 2 else 0, restart=(j == 0),
+                idle_when=("running", "shutdown", "after-bad-fd")[j % 3])
 
 
 REACTORS = ["select", "poll", "epoll", "asyncio"]
